@@ -473,3 +473,78 @@ func init() {
 		return true
 	}
 }
+
+// storeKinds are ordinary, always valid kinds that only the store checks (C02/C03) draw from; they
+// are kept out of AllKinds so that the menus (and random streams) of the other checks do not change.
+var storeKinds = map[string]func(*txBuilder) bool{}
+
+// StoreKinds lists them.
+var StoreKinds = []string{"v1fcfar", "v1revdown"}
+
+// EnableStoreKinds adds StoreKinds to the menu of this process.
+func EnableStoreKinds() {
+	for k, f := range storeKinds {
+		extraKinds[k] = f
+	}
+}
+
+func init() {
+	// two contracts whose window ends two or three grid steps out: room for a revision that pulls
+	// the window in
+	storeKinds["v1fcfar"] = func(tb *txBuilder) bool {
+		if !tb.v1Allowed() {
+			return false
+		}
+		fee := types.Siacoins(1).Div64(10)
+		c, ok := tb.takeCoin()
+		cost := v1Payout.Mul64(2).Add(fee)
+		if !ok || c.SiacoinOutput.Value.Cmp(cost.Add(types.Siacoins(1))) < 0 {
+			return false
+		}
+		h := tb.cs.Index.Height + 1
+		ws := h + 1 + uint64(tb.rng.Intn(2))
+		we := nextGrid(ws) + gridStep*uint64(1+tb.rng.Intn(2))
+		txn := types.Transaction{
+			SiacoinInputs:  []types.SiacoinInput{{ParentID: c.ID, UnlockConditions: tb.net.UC}},
+			SiacoinOutputs: []types.SiacoinOutput{{Address: tb.net.Addr, Value: c.SiacoinOutput.Value.Sub(cost)}},
+			MinerFees:      []types.Currency{fee},
+			FileContracts:  []types.FileContract{tb.newV1Contract(ws, we), tb.newV1Contract(ws, we)},
+		}
+		tb.net.signV1All(tb, &txn)
+		tb.v1 = append(tb.v1, txn)
+		return true
+	}
+	// a revision that pulls WindowEnd in (to an earlier grid value, or right behind the window start)
+	storeKinds["v1revdown"] = func(tb *txBuilder) bool {
+		if !tb.v1Allowed() {
+			return false
+		}
+		h := tb.cs.Index.Height + 1
+		cands := tb.v1Candidates(func(e types.FileContractElement) bool {
+			return e.FileContract.WindowStart >= h && e.FileContract.WindowEnd > h+1 && e.FileContract.WindowEnd > e.FileContract.WindowStart+1
+		})
+		if len(cands) == 0 {
+			return false
+		}
+		e := cands[tb.rng.Intn(len(cands))]
+		fc := e.FileContract
+		rev := fc
+		rev.RevisionNumber = fc.RevisionNumber + 1
+		rev.ValidProofOutputs = append([]types.SiacoinOutput(nil), fc.ValidProofOutputs...)
+		rev.MissedProofOutputs = append([]types.SiacoinOutput(nil), fc.MissedProofOutputs...)
+		// new end: an earlier grid value if one fits above the window start, else one less
+		we := fc.WindowEnd - 1
+		if g := fc.WindowEnd - gridStep; fc.WindowEnd > gridStep && g > fc.WindowStart && g > h && tb.rng.Bool() {
+			we = g
+		}
+		if we <= rev.WindowStart || we <= h {
+			return false
+		}
+		rev.WindowEnd = we
+		usedIn(tb)[e.ID] = true
+		txn := types.Transaction{FileContractRevisions: []types.FileContractRevision{{ParentID: e.ID, UnlockConditions: tb.net.UC, FileContract: rev}}}
+		tb.net.signV1All(tb, &txn)
+		tb.v1 = append(tb.v1, txn)
+		return true
+	}
+}
